@@ -127,9 +127,11 @@ class RerunConverges(FlowBase):
             self.stats["post_rerun_quiescent"] += 1
             status = post["status"]
             if status not in TERMINAL and not (status == st.PAUSED and sim.h["pause_req"]):
+                ri = sim.h.get("rerun_info") or {}
                 return [{"kind": "stuck_after_rerun",
                          "sig": {"status": status, "default_request": not g["rr"]["requested_explicit"],
-                                 "nothing_requested": not g["rr"]["requested"] and not g["off"],
+                                 "rerun_had_failed_terminal_task": ri.get("failed_terminal_task"),
+                                 "rerun_after_fail_command": ri.get("fail_command_terminal"),
                                  "after_partial_join_rerun": sim.h["rejoin"],
                                  "has_items": bool(self._items)},
                          "detail": {"requested": g["rr"]["requested"],
